@@ -14,9 +14,9 @@ from vlib import *
 from pegrun import *
 import gencrate
 
-SLICES_QUICK = [("ws", 4, 2, 3, 40), ("wsmod", 2, 1, 4, 400), ("wsov", 2, 3, 4, 30), ("wsref", 2, 3, 3, 120), ("pushws", 1, 1, 5, 40), ("shadow", 2, 3, 3, 25), ("core", 2, 3, 3, 15), ("stack", 2, 3, 4, 15), ("builtin", 2, 3, 3, 15),
+SLICES_QUICK = [("ws", 4, 2, 3, 40), ("wsmod", 2, 1, 4, 400), ("wspred", 1, 1, 4, 80), ("wsov", 2, 3, 4, 30), ("wsref", 2, 3, 3, 120), ("pushws", 1, 1, 5, 40), ("shadow", 2, 3, 3, 25), ("core", 2, 3, 3, 15), ("stack", 2, 3, 4, 15), ("builtin", 2, 3, 3, 15),
                 ("counted", 2, 3, 4, 10), ("skip", 4, 3, 3, 12), ("factor", 2, 1, 4, 12), ("restore", 4, 1, 4, 12)]
-SLICES_THOROUGH = [("ws", 8, 3, 3, 300), ("wsmod", 2, 1, 4, 400), ("wsov", 4, 3, 4, 150), ("wsref", 4, 3, 3, 600), ("pushws", 2, 1, 5, 120), ("shadow", 4, 3, 3, 120), ("core", 8, 4, 4, 150), ("stack", 8, 4, 4, 150), ("builtin", 8, 4, 3, 120),
+SLICES_THOROUGH = [("ws", 8, 3, 3, 300), ("wsmod", 2, 1, 4, 400), ("wspred", 1, 1, 4, 80), ("wsov", 4, 3, 4, 150), ("wsref", 4, 3, 3, 600), ("pushws", 2, 1, 5, 120), ("shadow", 4, 3, 3, 120), ("core", 8, 4, 4, 150), ("stack", 8, 4, 4, 150), ("builtin", 8, 4, 3, 120),
                    ("counted", 4, 4, 4, 100), ("skip", 8, 4, 4, 120), ("factor", 4, 1, 5, 120), ("restore", 8, 1, 5, 120)]
 
 
@@ -215,9 +215,20 @@ def run(ctx):
             seen[(kind, gid)] = seen.get((kind, gid), 0) + 1
             if seen[(kind, gid)] > 2:
                 continue
-            ctx.violation({"kind": "trace", "spec": "Trace_Backends", "which": kind, "grammar": rec["text"],
-                           "start": obj.get("start"), "inp": obj.get("inp"), "input": "".join(chr(c) for c in obj.get("inp", [])),
-                           "vm": obj.get("vm"), "generated": obj.get("gen")})
+            d = {"kind": "trace", "spec": "Trace_Backends", "which": kind, "grammar": rec["text"],
+                 "start": obj.get("start"), "inp": obj.get("inp"), "input": "".join(chr(c) for c in obj.get("inp", [])),
+                 "vm": obj.get("vm"), "generated": obj.get("gen")}
+            if kind == "semantics":
+                # both back-ends agree with each other but not with the documented semantics: whose doing? (the optimizer's
+                # list pass is a known finding of C01 / C05; the attribution is C01's - the pipeline recomposed without it)
+                exp = next((c.get("exp") for c in rec["cases"] if c["start"] == obj.get("start") and c["inp"] == obj.get("inp") and "exp" in c), None)
+                if exp is not None:
+                    f = os.path.join(ctx.work, "attr.json")
+                    json.dump({"text": rec["text"], "cases": [{"start": obj.get("start"), "inp": obj.get("inp"), "exp": exp}]}, open(f, "w"))
+                    rep = run_json([vh, "c01-replay", "--cases", f])
+                    if rep["mismatches"]:
+                        d["cause"] = rep["mismatches"][0].get("cause", "unknown")
+            ctx.violation(d)
         if len(ctx.cov["samples"]) < 3:
             x = read_ndjson(path, 1)[0]
             c = next((c for c in x["cases"] if c["vm"]["k"] == "fail"), x["cases"][0])
